@@ -5,12 +5,13 @@ The primary detection runs (tools/seedtest.py) apply the patch to /repo itself; 
 it can run in the background without touching /repo."""
 import json, os, re, shutil, subprocess, sys, time
 os.environ["VERIF_EVIDENCE_DIR"] = "/tmp/xm-evidence"; os.environ["VERIF_REPLAY_DIR"] = "/tmp/xm-replay"
-SEEDED = "/verif/seeded"
+HERE = os.path.dirname(os.path.dirname(os.path.abspath(__file__)))   # works from a vp-run snapshot too
+SEEDED = os.path.join(HERE, "seeded")
 ALL = ["C%02d" % i for i in range(1, 19)]
 seeds = [a for a in sys.argv[1:] if not a.startswith("--")] or sorted(d for d in os.listdir(SEEDED) if os.path.isdir(os.path.join(SEEDED, d)))
-mpath = os.path.join(SEEDED, "matrix.json")
+mpath = os.environ.get("XM_OUT") or os.path.join(SEEDED, "matrix.json")
 matrix = json.load(open(mpath)) if os.path.exists(mpath) else {}
-scratch = "/tmp/xm-repo"
+scratch = "/tmp/xm-repo-%d" % os.getpid()
 for sd in seeds:
     shutil.rmtree(scratch, ignore_errors=True)
     os.makedirs(scratch + "/utest")
@@ -26,7 +27,7 @@ for sd in seeds:
             continue
         t0 = time.time()
         try:
-            rr = subprocess.run("cd /verif && ./check %s --tier quick" % cid, shell=True, stdout=subprocess.PIPE, stderr=subprocess.STDOUT, universal_newlines=True,
+            rr = subprocess.run("cd %s && ./check %s --tier quick" % (HERE, cid), shell=True, stdout=subprocess.PIPE, stderr=subprocess.STDOUT, universal_newlines=True,
                                 env=dict(os.environ, VERIF_REPO=scratch), timeout=1500)
             rc = rr.returncode
         except subprocess.TimeoutExpired:
